@@ -149,5 +149,11 @@ def _(v):
     v.prove("phases_mapping_not_modified", as_dict == {"(s)": 2, "(aq)": 5} and s4.phase_idx == 2)
     f3 = Substance.from_formula("Fe", charge=3)
     f0 = Substance.from_formula("Fe")
+    f0.composition[26] = 7            # the caller edits ITS substance: later substances from the same formula must not see it
+    f0.composition[0] = -2
+    fresh = Substance.from_formula("Fe")
+    v.prove("editing_one_substance_does_not_change_the_next", fresh.composition == {26: 1} and fresh.charge == 0)
+    f0.composition[26] = 1
+    del f0.composition[0]
     v.prove("same_formula_again", f3.composition == {26: 1, 0: 3} and f0.composition == {26: 1} and f0.charge == 0 and (f0.latex_name, f0.unicode_name, f0.html_name) == ("Fe", "Fe", "Fe")
             and Substance.from_formula("Fe", charge=3).composition == {26: 1, 0: 3})
